@@ -46,15 +46,15 @@ const (
 
 // Thread is one scheduled goroutine.
 type Thread struct {
-	ID      int
-	Name    string
-	s       *Sched
-	goid    int64
-	resume  chan struct{}
-	freed   bool
-	adopted bool
+	ID        int
+	Name      string
+	s         *Sched
+	goid      int64
+	resume    chan struct{}
+	freed     bool
+	adopted   bool
 	mutexSeen int
-	status  int
+	status    int
 	// LastStop is the kind/point of the stop the thread is parked at.
 	LastKind, LastPoint string
 	// Left is maintained by the body: calls still to make (0 = program over).
@@ -361,7 +361,8 @@ func (s *Sched) Step(t *Thread) []Event {
 					}
 					continue
 				}
-				if x.Name != "" && x.Name[0] == 'w' && states[x.goid] == "sync.Mutex.Lock" {
+				if x.Name != "" && x.Name[0] == 'w' && (states[x.goid] == "sync.Mutex.Lock" ||
+					states[x.goid] == "sync.RWMutex.Lock" || states[x.goid] == "sync.RWMutex.RLock") {
 					x.mutexSeen++
 					if x.mutexSeen < mutexSeenNeeded {
 						quiet = false
@@ -409,7 +410,8 @@ func (s *Sched) Step(t *Thread) []Event {
 		}
 		// a thread woken from a runtime wait is running: it is not blocked any more
 		for _, x := range s.threads() {
-			if x.status == stBlocked && !waitState(states[x.goid]) && states[x.goid] != "sync.Mutex.Lock" {
+			if x.status == stBlocked && !waitState(states[x.goid]) && states[x.goid] != "sync.Mutex.Lock" &&
+				states[x.goid] != "sync.RWMutex.Lock" && states[x.goid] != "sync.RWMutex.RLock" {
 				x.status = stRunning
 			}
 		}
